@@ -782,8 +782,8 @@ def write_ev(prop, tier, seed, results, samples, xcheck, build_s, wall, violatio
                        'programs outside the generated family are not covered',
                        'native replay contexts: a fixed family of 14 contexts over the variables the generator uses']
     if 'M' in extra_ev:
-        cov['mir_restore'] = extra_ev['M'].get('coverage', {})
-        assumptions = assumptions + ['engine M: the MIR rustc (nightly) emits for perform_super / perform_include / call_block from the current source; panics/unwind edges are not followed; '
+        cov['mir'] = extra_ev['M'].get('coverage', {})
+        assumptions = assumptions + ['engine M: the MIR rustc (nightly) emits from the current source for the interpreter functions named in coverage.mir (perform_super / perform_include / call_block, or eval_impl); panics/unwind edges are not followed; '
                                      'the effect table names the acquire/release functions of five resources (frame, block cursor, recursion depth, macro closure, output capture); '
                                      'an Output capture need not be returned on an error exit (the Output does not outlive the failing call)']
     if 'Bs' in extra_ev:
